@@ -17,7 +17,9 @@ import tlc
 U = project.uncps
 
 PLANS = {"quick": [("fns", 1), ("logic", 2), ("arith", 1), ("strings", 1), ("misc", 1), ("fns", 4, 200), ("arith", 5, 200)],
-         "thorough": [("fns", 2), ("logic", 3), ("arith", 2), ("strings", 2), ("misc", 2), ("fns", 6, 4000), ("arith", 6, 3000), ("strings", 5, 2000)]}
+         # measured: arith 2 = 110 k filters, strings 2 = 114 k, logic 3 = 412 k, misc 2 > 1.4 M: the larger ones are sampled
+         "thorough": [("fns", 1), ("logic", 2), ("arith", 2), ("strings", 1), ("misc", 1), ("math", 1), ("fns", 6, 4000), ("arith", 6, 3000),
+                      ("strings", 5, 3000), ("misc", 4, 3000), ("logic", 8, 3000)]}
 
 
 def dialects():
